@@ -60,6 +60,9 @@ def generate(rng, tier):
                 extra.append(["mesh", "level"])
             if extra:
                 case["sortby_extra"] = {"entries": extra, "before": rng.random() < 0.7}
+    if p["ncpu"] >= 2 and rng.random() < 0.15:
+        # only some ranks' files are read, in the order the caller lists them
+        case["cpu_list"] = rng.sample(range(1, p["ncpu"] + 1), rng.randrange(1, p["ncpu"] + 1))
     if rng.random() < 0.25:
         case["nout_arg"] = "minus1"  # the output is opened as "the last one" (-1)
     if p["part"] is not None and rng.random() < 0.3:
@@ -107,6 +110,9 @@ def execute(case, stats):
         kw = {}
         if case.get("nout_arg") == "minus1":
             kw["nout"] = -1
+        if case.get("cpu_list"):
+            kw["cpu_list"] = list(case["cpu_list"])
+            stats.inc("probe.explicit_cpu_list")
         if case["sortby"]:
             kw["sortby"] = {"part": case["sortby"]}
             sx = case.get("sortby_extra")
@@ -154,7 +160,23 @@ def execute(case, stats):
             if p["part"] is not None:
                 cols = w.part_columns()
                 counts = w.part_counts()
-                ids = [pid for cpu in range(1, w.ncpu + 1) for pid in w.part_ids(cpu)]
+                cpus_read = list(case["cpu_list"]) if case.get("cpu_list") else list(range(1, w.ncpu + 1))
+                ids = [pid for cpu in cpus_read for pid in w.part_ids(cpu)]
+                asc = [pid for cpu in sorted(cpus_read) for pid in w.part_ids(cpu)]
+                if asc != ids and not case["sortby"] and "part" in ds:
+                    # the files may be concatenated in the order listed or in ascending rank order (the statement does not say):
+                    # whichever order the first stored column shows is the one all columns are judged in
+                    c0 = cols[0]
+                    k0 = next((k_ for k_, r_ in merge_names([c_[0] for c_ in cols if not case.get("part_select") or c_[0] in case["part_select"]["keep"]], w.ndim).items()), None)
+                    try:
+                        raw0 = merge_names([c_[0] for c_ in cols if not case.get("part_select") or c_[0] in case["part_select"]["keep"]], w.ndim)[k0][0]
+                        j0 = [c_[0] for c_ in cols].index(raw0)
+                        obs0 = physical(components(ds["part"][k0])[0].values, components(ds["part"][k0])[0].unit, family_of(raw0))
+                        want_asc = np.array([w.part_value(j0, cols[j0][1], pid) for pid in asc], dtype=float) * code_factor(family_of(raw0), ud, ul, ut)
+                        if obs0.shape == want_asc.shape and np.allclose(obs0, want_asc, rtol=1e-11, atol=0):
+                            ids = asc
+                    except Exception:
+                        pass
                 ntot = len(ids)
                 stats.inc("probe.rank_with_zero_particles", sum(1 for c in counts if c == 0))
                 if ntot == 0:
@@ -290,7 +312,7 @@ def measure(case):
     ncol = len(p["part"]["columns"]) if p["part"] else 0
     ns = (p["sink"]["nsink"] + len(p["sink"]["columns"])) if p["sink"] else 0
     return (p["ncpu"], npart, ncol, ns, p["levelmax"], p["ndim"], int(case["sortby"] is not None), len(p["hydro_vars"]), p["nboundary"],
-            int(p["units"] != [1.0, 1.0, 1.0]), p["maxcells"], int(bool(p["grav"])) + int(bool(p["rt_vars"])), int(bool(case.get("warm"))) + int(bool(case.get("reload"))) + int(bool(case.get("part_select"))) + int(bool(case.get("sortby_extra"))) + int(bool(case.get("nout_arg"))))
+            int(p["units"] != [1.0, 1.0, 1.0]), p["maxcells"], int(bool(p["grav"])) + int(bool(p["rt_vars"])), int(bool(case.get("warm"))) + int(bool(case.get("reload"))) + int(bool(case.get("part_select"))) + int(bool(case.get("sortby_extra"))) + int(bool(case.get("nout_arg"))) + int(bool(case.get("cpu_list"))))
 
 
 def reductions(case, viol):
@@ -310,6 +332,10 @@ def reductions(case, viol):
     if case.get("nout_arg"):
         c = dict(case)
         del c["nout_arg"]
+        yield c
+    if case.get("cpu_list"):
+        c = dict(case)
+        del c["cpu_list"]
         yield c
     for q in world_reductions(p):
         # keep the part/sink population that the violation is about
